@@ -97,10 +97,15 @@ Machine(o, ps, pn, ctx, ms, d, v, mut) ==
       cmj(j) == IF o.cls = "element"
                 THEN (IF "element_proportion" \in Deviations THEN QMul(CDa, ms[1])       \* Element: self.mass, one atom
                       ELSE QMul(CDa, QMul(pd[1], ms[1])))
-                ELSE IF o.mode = "MASS_FRACTION" THEN QSumSeq(SubSeq(pd, 1, j))         \* np.sum(proportion): a bare number
+                ELSE IF o.mode = "MASS_FRACTION"
+                THEN (IF "mass_fraction_mode" \in Deviations THEN QSumSeq(SubSeq(pd, 1, j))   \* np.sum(proportion): a bare number
+                      ELSE QMul(CDa, QSumSeq(SubSeq(pd, 1, j))))                            \* repaired: the fractions as masses in Da
                 ELSE QMul(CDa, QSumSeq([i \in 1..j |-> QMul(pd[i], ms[i])]))
       cm == cmj(k)
-      isMass == o.cls = "element" \/ o.mode # "MASS_FRACTION"
+      isMass == o.cls = "element" \/ o.mode # "MASS_FRACTION" \/ "mass_fraction_mode" \notin Deviations
+      \* the amount of a component in the rows: m.proportion; repaired mass-fraction mode: proportion / mass in Da
+      amt(p) == IF o.cls # "element" /\ o.mode = "MASS_FRACTION" /\ "mass_fraction_mode" \notin Deviations
+                THEN [i \in 1..k |-> QDiv(p[i], ms[i])] ELSE p
       ds == QMul(d, QP10(UExp(o.ud)))                                                   \* .to(standard unit)
       V  == IF mut = "volume_ignored" THEN <<1, 1>> ELSE QMul(v, QP10(UExp(o.uv)))
       \* Composite.__init__ with a dict: add() + _norm() per component.  The first _norm sets BOTH densities;
@@ -114,15 +119,15 @@ Machine(o, ps, pn, ctx, ms, d, v, mut) ==
              ELSE IF incremental THEN QDiv(rho, cm) ELSE ds
       a   == IF mut = "n_not_scaled" THEN [i \in 1..k |-> <<1, 1>>]                     \* rows use m.proportion
              ELSE IF mut = "operand_aliased" /\ ctx = "operand"                          \* ... of a Component the sum shares
-             THEN [i \in 1..k |-> IF i = k THEN QAdd(ps[i], <<2, 1>>) ELSE ps[i]]
-             ELSE ps
+             THEN amt([i \in 1..k |-> IF i = k THEN QAdd(ps[i], <<2, 1>>) ELSE ps[i]])
+             ELSE amt(ps)
       \* data_matter multiplies the Quantity number_density (unit-aware); a mutation takes its bare number instead
       nr  == IF mut = "n_unit_blind" /\ pert THEN QMul(n, QP10(6)) ELSE n
       w   == Vals(rho, n, nr, V, a, ms, o.vol)
   IN  IF ~isMass THEN Raises                                                            \* Quantity.to(): unsupported conversion
       ELSE IF mut = "n_not_scaled"
-           THEN [w EXCEPT !.rrho = [i \in 1..k |-> QMul(QMul(QMul(ps[i], ms[i]), CDa), n)],
-                          !.rM = [i \in 1..k |-> IF o.vol THEN QMul(QMul(QMul(QMul(ps[i], ms[i]), CDa), n), V) ELSE <<0, 1>>]]
+           THEN [w EXCEPT !.rrho = [i \in 1..k |-> QMul(QMul(QMul(amt(ps)[i], ms[i]), CDa), n)],
+                          !.rM = [i \in 1..k |-> IF o.vol THEN QMul(QMul(QMul(QMul(amt(ps)[i], ms[i]), CDa), n), V) ELSE <<0, 1>>]]
            ELSE w
 
 ---------------------------------------------------------------------------
@@ -279,7 +284,7 @@ Ms == [i \in 1..K |-> QI(comps[i].m)]
 Ideal5(o, ps, pn, ctx, ms, d, v) == Ideal(o, ps, ms, d, v)
 Mach5(o, ps, pn, ctx, ms, d, v)  == Machine(o, ps, pn, ctx, ms, d, v, "")
 
-DevTags(o, ps) == (IF o.cls = "material" /\ o.mode = "MASS_FRACTION" THEN {"mass_fraction_mode"} ELSE {})
+DevTags(o, ps) == (IF o.cls = "material" /\ o.mode = "MASS_FRACTION" /\ "mass_fraction_mode" \in Deviations THEN {"mass_fraction_mode"} ELSE {})
                   \cup (IF o.cls = "element" /\ ps[1] # <<1, 1>> THEN {"element_proportion"} ELSE {})
                   \cup (IF o.cls # "element" /\ o.form = "dict" /\ o.given = "n" /\ Len(ps) >= 2 THEN {"number_density_dict_form"} ELSE {})
 Tags(o, k, ps) == {o.kind, o.cls, o.mode, "form_" \o o.form, "given_" \o o.given, IF o.vol THEN "volume" ELSE "no_volume", "k" \o IStr(k)} \cup DevTags(o, ps)
